@@ -67,7 +67,7 @@ var names = []string{"", "one", "two", "three"}
 // a background-heavy command mix: several processes in flight, collected in different orders
 var bgCmds = []string{"execbg", "execbg", "execbg", "execbg", "waitname", "waitname", "wait", "wait", "snap", "snap", "snap", "kill", "execfg", "stdout", "cmpout", "probe"}
 var golden = map[string]string{"golden/alpha.txt": "alpha\n", "golden/beta.txt": "beta\n", "golden/aba.txt": "alpha beta alpha\n", "golden/empty.txt": "", "input.txt": "gamma\n"}
-var goldenNames = []string{"golden/alpha.txt", "golden/beta.txt", "golden/aba.txt", "golden/empty.txt", "input.txt", "missing.txt"}
+var goldenNames = []string{"golden/alpha.txt", "golden/beta.txt", "golden/aba.txt", "golden/empty.txt", "input.txt", "missing.txt", "input.txt/below"} // the last two do not exist (one because its parent is a file)
 
 var cmds = []string{"execfg", "execfg", "execfg", "exececho", "execbg", "execbg", "wait", "wait", "waitname", "kill", "stdout", "stdout", "stderr", "cmpout", "cmperr", "stdin", "exists",
 	"stop", "skip", "unknown", "probe", "probe", "probe", "failcmd", "phase", "snap", "snap", "exists2", "exists2", "execbad", "longprobe", "execbadbg"}
@@ -85,7 +85,8 @@ func genPlan(t *rapid.T, tier string) any {
 		// script's view of stdout/stderr recorded after every collection step
 		k := rapid.IntRange(2, 4).Draw(t, "nbg")
 		for i := 0; i < k; i++ {
-			l := Line{Cmd: "execbg", Out: 1 + (i+rapid.IntRange(0, 3).Draw(t, "outrot"))%(len(outs)-1), Base: rapid.IntRange(1, 30).Draw(t, "base")}
+			// run times from under a millisecond to most of a second: what is collected when must not matter
+			l := Line{Cmd: "execbg", Out: 1 + (i+rapid.IntRange(0, 3).Draw(t, "outrot"))%(len(outs)-1), Base: rapid.SampledFrom([]int{1, 2, 5, 9, 17, 30, 900, 2500, 6000}).Draw(t, "base")}
 			l.Name = rapid.SampledFrom([]int{0, 1, 2, 3, i%3 + 1}).Draw(t, "bgname")
 			l.Code = rapid.SampledFrom([]int{0, 0, 0, 1}).Draw(t, "bgcode")
 			l.Neg = l.Code != 0 && rapid.IntRange(0, 3).Draw(t, "bgneg") != 0
@@ -121,7 +122,7 @@ func genPlan(t *rapid.T, tier string) any {
 		l.Err = rapid.SampledFrom([]int{0, 0, 1, 2}).Draw(t, "err")
 		l.Code = rapid.SampledFrom([]int{0, 0, 0, 1, 2}).Draw(t, "code")
 		l.Name = rapid.IntRange(0, 7).Draw(t, "name") % len(names)
-		l.Word = rapid.IntRange(0, 5).Draw(t, "word")
+		l.Word = rapid.IntRange(0, 6).Draw(t, "word")
 		l.Count = rapid.SampledFrom([]int{0, 0, 1, 2, 3}).Draw(t, "count")
 		l.Base = rapid.IntRange(1, 30).Draw(t, "base")
 		l.Ever = rapid.IntRange(0, 2).Draw(t, "ever") == 0
@@ -134,7 +135,7 @@ func genPlan(t *rapid.T, tier string) any {
 				l.Out = rapid.IntRange(1, len(outs)-1).Draw(t, "outbg")
 			}
 		}
-		l.Word2 = rapid.IntRange(0, 5).Draw(t, "word2")
+		l.Word2 = rapid.IntRange(0, 6).Draw(t, "word2")
 		if rapid.IntRange(0, 7).Draw(t, "hold") == 0 {
 			l.Hold = rapid.IntRange(1, len(holds)-1).Draw(t, "holdidx")
 		}
